@@ -233,6 +233,8 @@ pub struct FaultCfg {
     pub forced: Vec<(u8, u16, Fate)>,
     /// enumerated stratum: this fate for the n-th datagram of the data phase (the first DATA is 0)
     pub forced_nth: Option<(u64, Fate)>,
+    /// the same for several datagrams of the data phase (positions ascending)
+    pub forced_list: Vec<(u64, Fate)>,
 }
 
 impl Default for FaultCfg {
@@ -254,6 +256,7 @@ impl Default for FaultCfg {
             spare_requests: false,
             forced: Vec::new(),
             forced_nth: None,
+            forced_list: Vec::new(),
         }
     }
 }
@@ -637,6 +640,11 @@ impl Inner {
                     self.budget_left += 1;
                     self.stats.count_fault("forced-nth");
                 }
+            }
+            if let Some(i) = self.cfg.forced_list.iter().position(|(n, _)| *n == self.phase_dgrams) {
+                fate = self.cfg.forced_list[i].1;
+                self.budget_left += 1;
+                self.stats.count_fault("forced-nth");
             }
             self.phase_dgrams += 1;
         }
